@@ -14,6 +14,7 @@ CONSTANTS
   PreRO <- NoPreRO
   FrontKind = "sharded"
   KeyShards <- MCKeyShards
+  FaultBudget = 0
 VIEW View
 ACTION_CONSTRAINT CoverAC
 POSTCONDITION CoverPost
